@@ -18,25 +18,29 @@ THEOREMS_PQ = ["C19_pq_no_lost_wakeup", "C19_pq_progress", "C19_pq_fifo_all_deli
 
 
 def ids(l):
-    return glist(gN(i) for i in l)
+    return "[" + "; ".join("%d" % i for i in l) + "]%N"
+
+
+def nats(l):
+    return glist("%d" % i for i in l)
 
 
 def poll_term(row):
     steps = []
     for op, ob in zip(row["ops"], row["obs"]):
         if op["k"] == "S":
-            o = "HS %s %s" % (gnat(op["c"]), gbool(op.get("s", 0) == 1))
+            o = "(HS %d %s)" % (op["c"], gbool(op.get("s", 0) == 1))
         elif op["k"] == "R":
-            o = "HR %s" % gnat(op["c"])
+            o = "(HR %d)" % op["c"]
         elif op["k"] == "A":
-            o = "HA %s" % ids(op["p"])
+            o = "(HA %s)" % ids(op["p"])
         else:
             raise ValueError("poll queue: unexpected op %r" % (op,))
         sts = []
         for c in ob["c"]:
             sts.append({"idle": "HIdle", "held": "HHeld", "blk": "HBlk"}.get(c["s"]) or "HRet %s" % ids(c["p"]))
-        steps.append(gpair(o, gpair(glist(sts), glist(gnat(c) for c in ob["ev"]), gN(ob["q"]), gN(ob["r"]))))
-    return gpair(gnat(row["nc"]), glist(steps))
+        steps.append("PS %s (PO %s %s %d %d)" % (o, glist(sts), nats(ob["ev"]), ob["q"], ob["r"]))
+    return "PC %d %s" % (row["nc"], glist(steps))
 
 
 def packet_term(row):
@@ -44,11 +48,11 @@ def packet_term(row):
     for op, ob in zip(row["ops"], row["obs"]):
         k = op["k"]
         if k == "S":
-            o = "KS %s" % gnat(op["c"])
+            o = "(KS %d)" % op["c"]
         elif k == "R":
-            o = "KR %s" % gnat(op["c"])
+            o = "(KR %d)" % op["c"]
         elif k == "A":
-            o = "KA %s" % ids(op["p"])
+            o = "(KA %s)" % ids(op["p"])
         else:
             o = {"X": "KX", "Z": "KZ", "W": "KW"}[k]
         sts = []
@@ -57,9 +61,9 @@ def packet_term(row):
                 sts.append("KClosed" if c["cl"] else "KRet %s %s" % (ids(c["p"]), gbool(c["ok"])))
             else:
                 sts.append({"idle": "KIdle", "held": "KHeld", "blk": "KBlk"}[c["s"]])
-        steps.append(gpair(o, gpair(glist(sts), glist(gnat(c) for c in ob["ev"]), gN(ob["q"]), gN(ob["r"]),
-                                    gN(ob["x"]), gN(ob["z"]), gN(1 if ob["w"] == "blk" else 0))))
-    return gpair(gnat(row["nc"]), glist(steps))
+        steps.append("KSt %s (KO %s %s %d %d %d %d %d)" % (o, glist(sts), nats(ob["ev"]), ob["q"], ob["r"],
+                                                         ob["x"], ob["z"], 1 if ob["w"] == "blk" else 0))
+    return "KC %d %s" % (row["nc"], glist(steps))
 
 
 def critical(row):
